@@ -58,7 +58,8 @@ NAMES = ["", "", "x", "len", "t1", "a_b", "v_x2", "m 2", "λ", "_"]
 INDEXLIKE_NAMES = ["run_2", "_5", "a_1_2", "x_0"]
 EXN = {"ValueError": "ValueError", "TypeError": "TypeError", "IndexError": "IndexError", "KeyError": "KeyError",
        "IllegalArgumentError": "OtherError"}
-BAD = {"str": ("x", "TypeError"), "none": (None, "TypeError"), "triple": ((1, 2, 3), "TypeError"),
+import decimal as _decimal
+BAD = {"decimal": (_decimal.Decimal("1.5"), "TypeError"), "str": ("x", "TypeError"), "none": (None, "TypeError"), "triple": ((1, 2, 3), "TypeError"),
        "pairstr": ((1, "a"), "OtherError"), "nested": ([1, 2], "TypeError"), "dict": ({}, "TypeError")}
 
 
@@ -159,12 +160,21 @@ def build_errspec(sp):
 def make_array(spec):
     """spec = [data, errspec, name, unit_in]"""
     q = _q()
-    data, sp, name, unit = spec
+    data, sp, name, unit = spec[:4]
+    style = spec[4] if len(spec) > 4 else "kw"
     kw = build_errspec(sp)
     if name != "":
         kw["name"] = name
     if unit != "":
         kw["unit"] = unit
+    if style == "pos" and "error" in kw:            # MeasurementArray(data, error, ...)
+        return q.MeasurementArray(list(data), kw.pop("error"), **kw)
+    if style == "data":                              # MeasurementArray(data=..., error=...)
+        return q.MeasurementArray(data=list(data), **kw)
+    if style == "nd":                                # numpy arrays instead of lists
+        import numpy as np
+        kw = {k: (np.array(v) if isinstance(v, list) else v) for k, v in kw.items()}
+        return q.MeasurementArray(np.array(list(data)), **kw)
     return q.MeasurementArray(list(data), **kw)
 
 
@@ -197,11 +207,34 @@ def exec_op(op, pool, store):
                 store.append(store[op[1]].delete(op[2]))
             elif t == "set":
                 store[op[1]][op[2]] = build_operand(op[3], pool, store)
+            elif t == "read":
+                read_everything(store[op[1]] if op[1] < len(store) else None, pool)
             else:
                 raise ValueError(op)
         return None
     except Exception as e:  # noqa
         return EXN.get(type(e).__name__, "Crash:" + type(e).__name__ + ":" + str(e)[:80])
+
+
+def read_everything(arr, pool=()):
+    """evaluate / print an array (and the user's measurements) through every public reading path; must not change
+    anything"""
+    q = _q()
+    import numpy as np
+    for m in pool:
+        _ = str(m), repr(m), m.value, m.error, m.relative_error, m.name, m.unit
+    if arr is None:
+        return
+    _ = str(arr), repr(arr), arr.values, arr.errors, arr.name, arr.unit, len(arr), list(arr)
+    for x in arr:
+        _ = str(x), x.value, x.error, x.relative_error, x.std
+    if len(arr):
+        _ = arr.sum(), q.sum(arr), np.sum(arr), arr[0], arr[-1]
+    if len(arr) >= 2:
+        _ = arr.mean(), arr.std(), arr.error_on_mean(), q.mean(arr), q.std(arr)
+        with warnings.catch_warnings():
+            warnings.simplefilter("ignore")
+            _ = arr.error_weighted_mean(), arr.propagated_error()
 
 
 def low_precision(v):
@@ -269,7 +302,27 @@ def gen_bare(rng):
             return x
 
 
+# values that coincide across distinct objects (and int / float of equal value), special values
+COMMON_VALUES = [0, 1, -1, 2, 2.0, 10, 100, 0.0, 1.0, 0.5]
+# every generated value and uncertainty is multiplied by SCALE (a power of two, so the floats stay exact):
+# data around 1e-9 / 1e-12 / 1e9 next to the ordinary ones
+SCALES = [2.0 ** -30, 2.0 ** -40, 2.0 ** 30]
+SCALE = 1
+
+
+def scaled(x):
+    if SCALE == 1:
+        return x
+    return float(frac(x) * Fraction(SCALE))
+
+
 def gen_num(rng, allow_bool=False):
+    if rng.random() < 0.15:
+        return scaled(rng.choice(COMMON_VALUES))
+    return scaled(gen_num0(rng, allow_bool))
+
+
+def gen_num0(rng, allow_bool=False):
     k = rng.randrange(-2 ** 10, 2 ** 10)
     j = rng.choice([0, 0, 1, 2, 3, 4])
     r = rng.random()
@@ -291,9 +344,15 @@ def gen_num(rng, allow_bool=False):
 
 
 def gen_err(rng):
+    return scaled(gen_err0(rng))
+
+
+def gen_err0(rng):
     r = rng.random()
     if r < 0.15:
         return 0
+    if r < 0.2:
+        return 2.0 ** -40        # one tiny uncertainty among ordinary ones
     return rng.randrange(0, 2 ** 6) / 2 ** rng.choice([0, 1, 2, 3, 5])
 
 
@@ -347,11 +406,23 @@ def gen_unit(rng):
 def gen_mk(rng, indexlike=True, malformed=False, minlen=1):
     n = rng.choice([1, 1, 2, 2, 3, 4, 5])
     n = max(n, minlen)
-    return ["mk", [gen_num(rng) for _ in range(n)], gen_errspec(rng, n, malformed), gen_name(rng, indexlike), gen_unit(rng)]
+    if rng.random() < 0.1:
+        # data that is large against its spread (|mean| / std ~ 1e5): distinct integers around a big offset, so that
+        # the two-pass variance stays within the 1e-9 of the model comparison and a cancelling formula does not
+        off = rng.choice([10 ** 5, 2 ** 17, 10 ** 6, -(10 ** 5)])
+        data = [off + d for d in rng.sample(range(-20, 21), n)]
+        return ["mk", data, gen_errspec(rng, n, malformed), gen_name(rng, indexlike), gen_unit(rng)]
+    mk = ["mk", [gen_num(rng) for _ in range(n)], gen_errspec(rng, n, malformed), gen_name(rng, indexlike), gen_unit(rng)]
+    if rng.random() < 0.3:
+        mk.append(rng.choice(["pos", "data", "nd"]))    # other spellings of the same constructor call
+    return mk
+
+
+MEAS_NAMES = ["", "", "mm", "q_3", "x", "len", "x_0", "t1"]      # also names that arrays (and their elements) carry
 
 
 def gen_meas(rng):
-    return ["meas", gen_num(rng), gen_err(rng), rng.choice(["", "", "mm", "q_3"]), gen_unit(rng)]
+    return ["meas", gen_num(rng), gen_err(rng), rng.choice(MEAS_NAMES), gen_unit(rng)]
 
 
 class SessionGen:
@@ -365,6 +436,9 @@ class SessionGen:
     def do(self, op):
         e = exec_op(op, self.pool, self.store)
         self.ops.append(op)
+        if e is not None and op[0] != "read" and self.rng.random() < 0.5:
+            exec_op(op, self.pool, self.store)        # the same rejected call offered again
+            self.ops.append(op)
         return e
 
     def fresh_meas(self):
@@ -419,6 +493,8 @@ class SessionGen:
         if not self.store:
             self.do(gen_mk(rng))
             return
+        if rng.random() < 0.15:      # objects are read (evaluated, printed, aggregated) before they are used again
+            self.do(["read", rng.randrange(len(self.store))])
         k = len(self.store) - 1 if rng.random() < 0.75 else rng.randrange(len(self.store))
         n = len(self.store[k])
         kind = rng.choice(["append", "append", "insert", "insert", "insert", "delete", "delete", "set", "set", "set"])
@@ -442,13 +518,18 @@ class SessionGen:
 
 
 def gen_session(rng, n_edits):
+    global SCALE
     reset_globals()
     g = SessionGen(rng)
-    if rng.random() < 0.1:
-        g.do(gen_mk(rng, malformed=True))
-    g.do(gen_mk(rng))
-    for _ in range(n_edits):
-        g.edit()
+    SCALE = rng.choice(SCALES) if rng.random() < 0.15 else 1
+    try:
+        if rng.random() < 0.1:
+            g.do(gen_mk(rng, malformed=True))
+        g.do(gen_mk(rng))
+        for _ in range(n_edits):
+            g.edit()
+    finally:
+        SCALE = 1
     return g.ops
 
 
@@ -551,6 +632,11 @@ def c_eobs(e):
     return I("({}, {}, {}, {}%N)".format(qlit(v), qlit(err), cstr(name), unit_token(unit)))
 
 
+def c_steps(steps):
+    """reading is not an operation of the model: the observation after it belongs to the state the model is in"""
+    return coq_list([c_step(st) for st in steps if st[0][0] != "read"])
+
+
 def c_step(step):
     op, e, arrays, pool = step
     return "({}, {}, {}, {})".format(
@@ -629,7 +715,8 @@ def correspondence(ctx):
                 ok_edits += 1
         if ok_edits >= 2:
             res.nontrivial.add(core.canonical_key("s", ops))
-    res.rule = ("sessions over one heap: initial arrays (no / common / per-element / relative uncertainties, with and without "
+    res.rule = ("sessions over one heap: initial arrays (no / common / per-element / relative uncertainties, 10% with data "
+                "that is large against its spread (integers around 1e5 .. 1e6), with and without "
                 "name and unit, also names ending in _<digits>) then 3-13 random edits (append / insert / delete / item "
                 "assignment; operand = number (Python int / float / bool, numpy int64 / int32 / int8 / uint8 / float64 / float32 scalar, Fraction), (value, error) pair of those, Measurement, list of those, ndarray of numbers, another "
                 "MeasurementArray; target = the latest array (75%) or any older one; indices uniform over the valid range "
@@ -646,7 +733,7 @@ def correspondence(ctx):
     for k in range(0, len(sessions), per):
         chunk = sessions[k:k + per]
         INTERN = Interner()
-        body = coq_list(["({}, {})".format(coq_list([c_step(s) for s in steps]), coq_list([c_agg(a) for a in aggs]))
+        body = coq_list(["({}, {})".format(c_steps(steps), coq_list([c_agg(a) for a in aggs]))
                          for _, steps, aggs in chunk])
         text = HEADER + INTERN.text() + "Definition cases := {}.\nEval vm_compute in (bad_indices check_session cases).\n".format(body)
         shards.append(text)
@@ -681,7 +768,10 @@ def o_item_build(it):
     if t == "pair":
         return (num(it[1]), num(it[2])), (frac(it[1]), frac(it[2]))
     if t == "meas":
-        return make_meas(it[1:]), (frac(it[1]), frac(it[2]))
+        m = make_meas(it[1:5])
+        if len(it) > 5:           # the measurement is printed / evaluated before it is used as an operand
+            _ = str(m), repr(m), m.value, m.error, m.relative_error, m.unit, m.name
+        return m, (frac(it[1]), frac(it[2]))
     raise ValueError(it)
 
 
@@ -764,6 +854,23 @@ def check_aggregates(arr, model):
             mean = sx / n
             var = sum((v - mean) ** 2 for v, _ in model) / (n - 1)
             m, sd = arr.mean(), arr.std()
+            # numerical quality: the two-pass sample variance (what numpy computes) has a relative error of a few
+            # eps * max|x| / std; a formula that subtracts two large moments (mean(x^2) - mean(x)^2) has
+            # eps * (max|x| / std)^2 and fails this tolerance for data that is large against its spread
+            big = max(abs(v) for v, _ in model)
+            eps = Fraction(1, 2 ** 52)
+            if var == 0:
+                okz = frac(sd) is not None and abs(frac(sd)) <= Fraction(1, 10 ** 12) * big \
+                    and frac(m.error) is not None and abs(frac(m.error)) <= Fraction(1, 10 ** 12) * big
+                if not okz or not close(frac(m.value), mean, vtol):
+                    return "mean() is {} +/- {}, std() is {} but all values equal {}: the standard deviation is 0".format(
+                        m.value, m.error, sd, float(mean))
+                return None
+            ratio = Fraction(big * big, 1) / var          # (max|x| / std)^2, exact
+            if ratio > 10 ** 4:
+                from math import isqrt
+                r = Fraction(isqrt(int(ratio)) + 1)         # >= max|x| / std
+                tol = Fraction(1, 10 ** 11) + 256 * eps * r
             if lowp:      # only the orders of magnitude: float32 rounding of the deviations from the mean
                 scale = float(var) + float(mean) ** 2 + 1
                 if abs(float(sd) ** 2 - float(var)) > 1e-4 * scale or abs(float(m.error) ** 2 - float(var / n)) > 1e-4 * scale \
@@ -779,6 +886,17 @@ def check_aggregates(arr, model):
                     m.value, m.error, float(mean), math.sqrt(var / n))
             if m.unit != arr.unit or s.unit != arr.unit:
                 return "sum()/mean() carry units {!r}/{!r}, the array has {!r}".format(s.unit, m.unit, arr.unit)
+        # the other spellings of the same aggregates: q.sum / q.mean / q.std, np.sum / np.mean
+        import numpy as np
+        q = _q()
+        alts = [("q.sum", q.sum(arr), s), ("np.sum", np.sum(arr), s)]
+        if n >= 2:
+            alts += [("q.mean", q.mean(arr), m), ("np.mean", np.mean(arr), m)]
+            if q.std(arr) != sd:
+                return "q.std(a) is {} but a.std() is {}".format(q.std(arr), sd)
+        for label, got, ref in alts:
+            if not hasattr(got, "error") or got.value != ref.value or got.error != ref.error or got.unit != ref.unit:
+                return "{}(a) is {} but the method gives {}".format(label, got, ref)
     return None
 
 
@@ -788,9 +906,10 @@ def norm(i, n, incl_end):
     return i + n if i < 0 else i
 
 
-def check_history_oracle(case):
+def check_history_oracle(case, reset=True):
     """runs the history on the implementation and on a plain list of pairs; None or the first contradiction"""
-    reset_globals()
+    if reset:
+        reset_globals()
     init = case["init"]
     try:
         with warnings.catch_warnings():
@@ -815,6 +934,15 @@ def check_history_oracle(case):
         n = len(model)
         tag = "step {} {}".format(step, json.dumps(op))
         src, src_model = cur, list(model)
+        if t == "read":          # printing / evaluating / aggregating must not change anything
+            try:
+                read_everything(cur)
+            except Exception as e:  # noqa
+                return "{}: reading the array raised {}: {}".format(tag, type(e).__name__, str(e)[:120])
+            why = check_array("result of " + tag, cur, model, name, unit)
+            if why:
+                return why
+            continue
         try:
             with warnings.catch_warnings():
                 warnings.simplefilter("ignore")
@@ -875,7 +1003,8 @@ def gen_oracle_item(rng):
         return ["num", gen_num(rng, True)]
     if r < 0.7:
         return ["pair", gen_num(rng, True), gen_perr(rng)]
-    return gen_meas(rng)
+    m = gen_meas(rng)
+    return m + ["read"] if rng.random() < 0.3 else m
 
 
 def gen_oracle_operand(rng):
@@ -889,11 +1018,86 @@ def gen_oracle_operand(rng):
     return ["arr"] + gen_mk(rng, indexlike=INDEXLIKE_IN_ORACLE)[1:]
 
 
+OFFSETS = [10 ** 4, 10 ** 6, 2 ** 30, 10 ** 9, 123456789, -(10 ** 7)]
+
+
+def shift_num(x, off):
+    """x + off as a plain number (typed numbers become plain: small integer types would overflow)"""
+    v = frac(x) + off
+    return int(v) if v.denominator == 1 else float(v)
+
+
+def shift_item(it, off):
+    if it[0] == "num":
+        return ["num", shift_num(it[1], off)]
+    if it[0] == "pair":
+        return ["pair", shift_num(it[1], off), it[2]]
+    if it[0] == "meas":
+        return ["meas", shift_num(it[1], off)] + list(it[2:])
+    return it
+
+
+def shift_operand(o, off):
+    if o[0] == "list":
+        return ["list", [shift_item(x, off) for x in o[1]]]
+    if o[0] == "ndarray":
+        return ["ndarray", [shift_num(x, off) for x in o[1]]]
+    if o[0] == "arr":
+        return ["arr", [shift_num(x, off) for x in o[1]]] + list(o[2:])
+    return shift_item(o, off)
+
+
+def shift_case(case, off):
+    """the same history on data that is large against its spread (lengths around 1000.00x mm, timestamps ...):
+    every value gets the offset, the uncertainties stay"""
+    init = case["init"]
+    out = dict(case, init=[[shift_num(x, off) for x in init[0]]] + list(init[1:]), ops=[])
+    for op in case["ops"]:
+        if op[0] == "append":
+            out["ops"].append(["append", shift_operand(op[1], off)])
+        elif op[0] == "insert":
+            out["ops"].append(["insert", op[1], shift_operand(op[2], off)])
+        elif op[0] == "set":
+            out["ops"].append(["set", op[1], shift_item(op[2], off)])
+        else:
+            out["ops"].append(op)
+    return out
+
+
+def offset_cases():
+    """aggregates of data with |mean| / std between 1e3 and 1e9"""
+    out = []
+    for data in ([1e9, 1e9 + 1, 1e9 + 2], [1000.001, 1000.002, 1000.004, 1000.003], [123456789.25, 123456789.5],
+                 [2.0 ** 30 + 0.5, 2.0 ** 30 + 1.5, 2.0 ** 30 - 1, 2.0 ** 30, 2.0 ** 30 + 3], [1e6 + 0.1, 1e6 + 0.2, 1e6 + 0.4],
+                 [-1e7 - 1, -1e7 + 1], [5e5] * 3):
+        out.append({"init": [data, ["common", 0.5], "len", "m"],
+                    "ops": [["append", ["num", data[0] + 1]], ["delete", 0], ["set", 0, ["num", data[-1] + 0.5]]]})
+    return out
+
+
 def gen_oracle_case(rng):
+    case = gen_oracle_case0(rng)
+    if rng.random() < 0.25:
+        case = shift_case(case, rng.choice(OFFSETS))
+    return case
+
+
+def gen_oracle_case0(rng):
+    global SCALE
+    SCALE = rng.choice(SCALES) if rng.random() < 0.15 else 1
+    try:
+        return gen_oracle_case1(rng)
+    finally:
+        SCALE = 1
+
+
+def gen_oracle_case1(rng):
     init = gen_mk(rng, indexlike=INDEXLIKE_IN_ORACLE)[1:]
     n = len(init[0])
     ops = []
     for _ in range(rng.randrange(1, 12)):
+        if rng.random() < 0.12:
+            ops.append(["read"])
         kind = rng.choice(["append", "insert", "insert", "delete", "delete", "set", "set"])
         if kind == "append":
             o = gen_oracle_operand(rng)
@@ -1035,30 +1239,72 @@ def search(ctx, suspects, budget):
             todo += session_to_oracle_cases(s["case"])
     todo += [c["case"] for c in load_corpus() if c.get("kind") == "history"]
     todo += typed_number_cases()
+    todo += offset_cases()
     n = 0
     limit = ctx.n(400, 20000)
+    since = []          # what ran since the library was last imported afresh: {"case": history, "keep": no reset before it}
+    chained = 0
+    core.fresh_impl()
     while True:
+        keep_state = False
         if todo:
             case = todo.pop(0)
         elif time.time() - t0 > budget or n >= limit:
             break
         else:
             case = gen_oracle_case(rng)
+            keep_state = rng.random() < 0.4      # a session that does not begin with a reset
         n += 1
+        if len(since) >= 30:
+            core.fresh_impl()
+            since = []
         try:
-            why = check_history_oracle(case)
+            why = check_history_oracle(case, reset=not keep_state)
         except Exception as e:  # noqa  (harness problem on a converted suspect: not a finding)
             ctx.notes.append("oracle: case skipped ({}: {})".format(type(e).__name__, str(e)[:80]))
             continue
-        if why:
+        if keep_state:
+            chained += 1
+        if not why:
+            since.append({"case": case, "keep": keep_state})
+            continue
+        # does it fail on its own in a freshly imported library, or only after what ran before it?
+        core.fresh_impl()
+        alone = check_history_oracle(case)
+        if alone:
             small = shrink_case(case)
-            why = check_history_oracle(small) or why
+            core.fresh_impl()
+            why = check_history_oracle(small) or alone
             out.append(Violation(ID, "history", small, why))
-            if len(out) >= 3:
-                break
+        else:
+            prefix = core.minimize_session(since, lambda pre: run_chain(pre, case, keep_state) is not None)
+            what = run_chain(prefix, case, keep_state)
+            if what:
+                out.append(Violation(ID, "session-history", {"prefix": prefix, "case": case, "keep": keep_state},
+                                     "after {} earlier histor{} in the same interpreter: {}".format(
+                                         len(prefix), "y" if len(prefix) == 1 else "ies", what)))
+            else:
+                ctx.notes.append("oracle: a failure that did not reproduce from a fresh import was dropped: " + why[:120])
+        core.fresh_impl()
+        since = []
+        if len(out) >= 3:
+            break
     reset_globals()
-    ctx.notes.append("oracle: {} histories on a plain list of pairs".format(n))
+    ctx.notes.append("oracle: {} histories on a plain list of pairs ({} of them without a reset of the library state "
+                     "after the previous one)".format(n, chained))
     return out
+
+
+def run_chain(prefix, case, keep=False):
+    """in a freshly imported library: the histories of [prefix] one after the other (each with or without the reset
+    it had), then [case]"""
+    core.fresh_impl()
+    for c in prefix:
+        try:
+            check_history_oracle(c["case"], reset=not c["keep"])
+        except Exception:  # noqa
+            pass
+    return check_history_oracle(case, reset=not keep)
 
 
 def load_corpus():
@@ -1072,6 +1318,10 @@ def load_corpus():
 
 
 def replay(ctx, v):
+    if v["kind"] == "session-history":
+        why = run_chain(v["case"]["prefix"], v["case"]["case"], v["case"].get("keep", False))
+        reset_globals()
+        return Violation(ID, v["kind"], v["case"], why) if why else None
     why = check_history_oracle(v["case"])
     reset_globals()
     return Violation(ID, v["kind"], v["case"], why) if why else None
